@@ -147,7 +147,8 @@ def finalize_consumer(db):
                                         f" contains(r_list({C}, full_queue_name), result)))"},
         note="placeholder (the window scan is decided separately): a name that was in the source when it was read")
     db.contract(
-        fn=K + "__get_message_name", serves=["C14", "C01"], binds={"full_queue_name": "str", "topics": "set[str]"},
+        fn=K + "__get_message_name", serves=["C14", "C01", "C11"], binds={"full_queue_name": "str", "topics": "set[str]"},
+        clause_props={"ensures:only_names_of_my_topics": ["C11"], "*": ["C14", "C01"]},
         setup=share_connection,      # consumer.conn IS broker.conn (set in _RedisConsumer.__init__)
         requires=["self.broker.processing_queue == 'processing'"],
         # other consumers run between this consumer's round trips: anything may happen to the lists and sorted sets
@@ -156,6 +157,10 @@ def finalize_consumer(db):
             # C14: a name is handed out only if THIS consumer's transaction removed it from the source
             "taken_only_if_removed_by_me": "implies(result is not None, redis_removed() == 1)",
             "nothing_taken_nothing_marked": f"implies(result is None, {C}.hmem == old({C}.hmem) and {C}.hval == old({C}.hval))",
+            # C11: a short name is '<topic>:<id>': only names whose topic part is one of this consumer's topics are taken
+            # (the prefix must include the ':' delimiter, otherwise topic `send` would also take `send_email:...`)
+            "only_names_of_my_topics": "implies(result is not None, not nonempty(local('topics', self.topics))"
+                                       " or exists(t, 'str', t in local('topics', self.topics) and result.startswith(t + ':')))",
         },
         raises=[], modifies=STORE, returns="Optional[str]",
     )
